@@ -160,3 +160,68 @@ def stale_after_swap(funcnode, cfg):
                     if isinstance(x, (ast.Attribute, ast.Subscript, ast.Call)) and src(x, 200) in origin:
                         out.append((s, n, src(x, 200), origin[src(x, 200)]))
     return out
+
+
+def scoped_state_rule(repo, rid, only=None):
+    """A `@contextmanager` function that changes process-wide state before its `yield` (rebinds a global, updates an
+    object reachable from one) promises the state back when the with-block ends - however it ends.  The generator is
+    resumed by an exception thrown in at the `yield` when the block raises: only a `finally` runs then.  So the `yield`
+    sits in a `try` whose `finally` writes the state back.  (A failing parse inside `with fresh_context(..)` is the normal
+    way to learn that input is ill-formed: it must not leave the inner declarations in force.)"""
+    from .core import RuleResult
+    from .astutil import src
+    res = RuleResult(rid, 'a context manager that changes global state restores it on every exit of the with-block, exceptional ones included', floor=2)
+    for m in repo.source_modules():
+        for f in m.all_funcs:
+            if f.parent is not None or not any((d or '').endswith('contextmanager') for d in f.decorators()):
+                continue
+            if only is not None and f.name not in only:
+                continue
+            globs = {n for g in ast.walk(f.node) if isinstance(g, ast.Global) for n in g.names}
+            yields = [y for y in ast.walk(f.node) if isinstance(y, (ast.Yield, ast.YieldFrom))]
+            if not yields:
+                continue
+
+            def writes(stmts):
+                out = []
+                for st in stmts:
+                    for n in ast.walk(st):
+                        if isinstance(n, (ast.Assign, ast.AugAssign)):
+                            for t in (n.targets if isinstance(n, ast.Assign) else [n.target]):
+                                base = t
+                                while isinstance(base, (ast.Attribute, ast.Subscript)):
+                                    base = base.value
+                                if isinstance(base, ast.Name) and base.id in globs:
+                                    out.append(n)
+                        if isinstance(n, ast.Call) and isinstance(n.func, ast.Attribute) and n.func.attr in ('update', 'clear', 'append', 'pop', 'extend', 'add'):
+                            base = n.func.value
+                            while isinstance(base, (ast.Attribute, ast.Subscript)):
+                                base = base.value
+                            if isinstance(base, ast.Name) and base.id in globs:
+                                out.append(n)
+                        if isinstance(n, ast.Call) and isinstance(n.func, ast.Name) and n.func.id in m.functions and \
+                                any(isinstance(g, ast.Global) for g in ast.walk(m.functions[n.func.id].node)):
+                            out.append(n)        # a function of the module that itself rebinds globals (set_context)
+                return out
+            # statements in front of the first yield (in source order)
+            yl = min(y.lineno for y in yields)
+            before = [st for st in ast.walk(f.node) if isinstance(st, ast.stmt) and not isinstance(st, (ast.FunctionDef, ast.Try, ast.If, ast.With, ast.For, ast.While)) and
+                      st.lineno < yl]
+            changed = writes(before)
+            if not changed:
+                res.add('%s :: %s :: restores-on-every-exit' % (m.rel, f.qualname), True, 'changes no global state before yielding', f.loc, nontrivial=False)
+                continue
+            bad = []
+            for y in yields:
+                guarded = False
+                for t in ast.walk(f.node):
+                    if isinstance(t, ast.Try) and t.finalbody and any(x is y for st in t.body for x in ast.walk(st)) and writes(t.finalbody):
+                        guarded = True
+                if not guarded:
+                    bad.append(y)
+            res.add('%s :: %s :: restores-on-every-exit' % (m.rel, f.qualname), not bad,
+                    'the yield is inside try / finally, and the finally writes the state back' if not bad else
+                    'line %d yields after `%s` without a try / finally that writes the state back: when the with-block raises (an ill-formed input '
+                    'is reported by an exception) the changed state stays in force for everything that follows' % (bad[0].lineno, src(changed[0], 50)),
+                    '%s:%d' % (m.rel, (bad[0] if bad else yields[0]).lineno))
+    return res
